@@ -40,19 +40,19 @@ func Violf(sig, format string, args ...any) *Violation {
 
 // Stats is what one test function of one process contributes to evidence.
 type Stats struct {
-	Property    string         `json:"property"`
-	Test        string         `json:"test"`
-	Evaluations int            `json:"evaluations"`
-	Nontrivial  int            `json:"nontrivial"`
-	Hashes      []string       `json:"hashes"` // distinct non-trivial case hashes
-	Classes     map[string]int `json:"classes"`
-	Excluded    map[string]int `json:"excluded"`
-	Known       map[string]int `json:"known"` // known-finding signature -> times re-observed
+	Property    string            `json:"property"`
+	Test        string            `json:"test"`
+	Evaluations int               `json:"evaluations"`
+	Nontrivial  int               `json:"nontrivial"`
+	Hashes      []string          `json:"hashes"` // distinct non-trivial case hashes
+	Classes     map[string]int    `json:"classes"`
+	Excluded    map[string]int    `json:"excluded"`
+	Known       map[string]int    `json:"known"` // known-finding signature -> times re-observed
 	KnownDesc   map[string]string `json:"known_desc"`
-	Samples     []any          `json:"samples"`
-	Exhaustive  bool           `json:"exhaustive"`
-	Rule        string         `json:"rule"`
-	Notes       []string       `json:"notes,omitempty"`
+	Samples     []any             `json:"samples"`
+	Exhaustive  bool              `json:"exhaustive"`
+	Rule        string            `json:"rule"`
+	Notes       []string          `json:"notes,omitempty"`
 }
 
 // Collector accumulates Stats; safe for concurrent use.
